@@ -13,6 +13,11 @@ RESL = ["thread", "thread", "async-thread", "main-thread"]
 
 
 # ------------------------------------------------------------------------------ program generation
+def dk(key):
+    """a key of a stored program as the Python object: JSON lists stand for tuple keys"""
+    return tuple(key) if isinstance(key, list) else key
+
+
 def gen_expr(rng, nvars, vinfo, nparams, allow_const=True):
     """an argument expression: variable (maybe indexed), parameter, or constant"""
     opts = []
@@ -77,6 +82,10 @@ def gen_prog(rng, name="p", depth=0, max_stmts=8, fid_base=0, p_flag=0.2, p_sub=
             f["truths"] = [rng.random() < 0.6 for _ in range(rng.randint(2, 3))]
         if kind == "dict":
             f["keys"] = [["k%d" % t, rng.random() < 0.6] for t in range(rng.randint(1, 3))]
+            kr = random.Random(rng.getrandbits(30))
+            for kt in f["keys"]:
+                if kr.random() < 0.3:
+                    kt[0] = ["t", int(kt[0][1:])]  # a TUPLE key ("t", n): indexing with it is one lookup
         funs.append(f)
     for i in range(nst):
         r = rng.random()
@@ -243,7 +252,7 @@ def make_raw(f, failing, counter=None):
         if kind in ("unpack", "idx"):
             return tuple(App(fid, t, (Const(i, True),) + args) for i, t in enumerate(f["truths"]))
         if kind == "dict":
-            return {key: App(fid, t, (Const(Keys.K(key), True),) + args) for key, t in f["keys"]}
+            return {dk(key): App(fid, t, (Const(Keys.K(key), True),) + args) for key, t in f["keys"]}
         return App(fid, f["truth"], args)
 
     raw.__qualname__ = "f%d" % fid
@@ -270,7 +279,7 @@ def body(prog, F, S, L, recorder=None, override=None):
         if e[0] == "var":
             v = env[e[1]]
             for k in e[2]:
-                v = v[k]
+                v = v[dk(k)]
             return v
         if e[0] == "param":
             return params[e[1]]
